@@ -216,3 +216,199 @@ Proof.
   intros Ha H. unfold ni_id in H. rewrite Ha in H. inv_bind H. destruct a as [[x' y']|]; [|discriminate].
   inversion H; subst. split; [reflexivity|]. eapply ni_xy_scan_spec; eauto.
 Qed.
+
+(* ------------------------------------------------------------------ the links of a router tree *)
+Fixpoint tree_links (connect : bool) (parent : string) (tree : list Z) (lvl : Z) : list edge :=
+  match tree with
+  | [] => []
+  | t :: rest =>
+      flat_map (fun i => let nm := idx_name parent i in
+                  (if connect && (0 <? lvl) then [mk_link parent nm None None; mk_link nm parent None None] else []) ++
+                  tree_links connect nm rest (lvl + 1)) (zrange0 t)
+  end.
+
+Theorem tree_edges connect tree : forall g parent lvl desc g',
+  add_nodes_as_tree g parent tree lvl desc connect = Ok g' -> g_edges g' = g_edges g ++ tree_links connect parent tree lvl.
+Proof.
+  induction tree as [|t rest IH]; intros g parent lvl desc g' H; cbn [add_nodes_as_tree tree_links] in *.
+  - inversion H; subst. rewrite app_nil_r. reflexivity.
+  - revert g H. generalize (zrange0 t). intros l. induction l as [|i l IHl]; intros g H; cbn [foldM flat_map] in *.
+    + inversion H; subst. rewrite app_nil_r. reflexivity.
+    + inv_bind H. rewrite (IHl _ H). clear IHl H. inv_bind E.
+      apply IH in E. rewrite E. clear E.
+      unfold add_node in E0. destruct (has_node g _); [discriminate|]. inversion E0; subst a0; clear E0. cbn [g_edges] in E1.
+      destruct (connect && (0 <? lvl)).
+      * inv_bind E1. apply add_edge_spec in E. destruct E as (-> & _). apply add_edge_spec in E1. destruct E1 as (-> & _).
+        cbn [g_edges]. rewrite <- !app_assoc. reflexivity.
+      * inversion E1; subst. cbn [g_edges app]. rewrite <- app_assoc. reflexivity.
+Qed.
+
+(* ------------------------------------------------------------------ the links of a connection *)
+Definition conn_links (sd dd : option Z) (pairs : list (string * string)) : list edge :=
+  flat_map (fun p => [mk_link (fst p) (snd p) sd dd; mk_link (snd p) (fst p) dd sd]) pairs.
+
+Lemma conn_fold_edges sd dd : forall pairs g g',
+  foldM (fun g p => do g <- add_edge g (mk_link (fst p) (snd p) sd dd); add_edge g (mk_link (snd p) (fst p) dd sd)) pairs g = Ok g' ->
+  g_edges g' = g_edges g ++ conn_links sd dd pairs /\ g_nodes g' = g_nodes g.
+Proof.
+  induction pairs as [|p ps IH]; intros g g' H; cbn [foldM conn_links flat_map] in *.
+  - inversion H; subst. rewrite app_nil_r. auto.
+  - inv_bind H. destruct (IH _ _ H) as (I1 & I2). inv_bind E. apply add_edge_spec in E0. destruct E0 as (-> & _).
+    apply add_edge_spec in E. destruct E as (-> & _). cbn [g_edges g_nodes] in *. rewrite I1, I2, <- !app_assoc. auto.
+Qed.
+
+(* what a connection adds: both directions of every pair of its selections, with the named directions *)
+Theorem connection_edges d g c g' : create_connection d g c = Ok g' ->
+  exists srcs dsts srcs' dsts' pairs,
+    select_nodes g (c_src c) (c_src_idx c) (c_src_range c) (c_src_lvl c) = Ok srcs /\
+    select_nodes g (c_dst c) (c_dst_idx c) (c_dst_range c) (c_dst_lvl c) = Ok dsts /\
+    mapM (ni_of_ep g d) srcs = Ok srcs' /\ mapM (ni_of_ep g d) dsts = Ok dsts' /\
+    pair_up srcs' dsts' (c_multi c) = Ok pairs /\
+    g_edges g' = g_edges g ++ conn_links (c_src_dir c) (c_dst_dir c) pairs /\ g_nodes g' = g_nodes g.
+Proof.
+  unfold create_connection. intros H. inv_bind H. destruct (conn_fold_edges _ _ _ _ _ H) as (H1 & H2).
+  exists a, a0, a1, a2, a3. auto 10.
+Qed.
+
+(* ------------------------------------------------------------------ the links of a whole description *)
+Definition router_links (r : rt_desc) : list edge :=
+  match rt_array r, rt_tree r with
+  | Some [m; n], None => if rt_auto r then flat_map (array_links (rt_name r)) (grid_idx m n) else []
+  | None, Some tree => tree_links (rt_auto r) (rt_name r) tree 0
+  | _, _ => []
+  end.
+
+Lemma router_edges g r g' : create_router g r = Ok g' -> g_edges g' = g_edges g ++ router_links r.
+Proof.
+  unfold create_router, router_links. destruct (rt_array r) as [[|m [|n [|x xs]]]|], (rt_tree r) as [tree|]; try discriminate; intros H.
+  - destruct (rt_auto r).
+    + apply array_edges in H. exact H.
+    + apply array_nodes in H. destruct H as (_ & H). rewrite H, app_nil_r. reflexivity.
+  - apply tree_edges in H. exact H.
+  - unfold add_node in H. destruct (has_node g _); [discriminate|]. inversion H; subst. cbn. rewrite app_nil_r. reflexivity.
+Qed.
+
+Definition link_edges_of (g : graph) : list edge := filter is_link (g_edges g).
+
+Lemma prot_fold_links (f : list Z -> string * string) idxs : forall g g',
+  foldM (fun g i => add_edge g (prot_edge (fst (f i)) (snd (f i)))) idxs g = Ok g' -> link_edges_of g' = link_edges_of g.
+Proof.
+  induction idxs as [|i l IH]; intros g g' H; cbn [foldM] in H; [inversion H; reflexivity|].
+  inv_bind H. apply add_edge_spec in E. destruct E as (-> & _). rewrite (IH _ _ H).
+  unfold link_edges_of. cbn [g_edges]. rewrite filter_app. cbn. rewrite app_nil_r. reflexivity.
+Qed.
+
+Lemma endpoint_links g e g' : create_endpoint g e = Ok g' -> link_edges_of g' = link_edges_of g.
+Proof.
+  unfold create_endpoint. cbv zeta. destruct (ep_array e) as [arr|]; intros H; inv_bind H.
+  - apply array_nodes in E. apply array_nodes in E0. destruct E as (_ & E). destruct E0 as (_ & E0).
+    assert (L1 : link_edges_of a1 = link_edges_of a0).
+    { destruct (ep_is_sbr e); [|inversion E1; reflexivity].
+      apply (prot_fold_links (fun i => (full_name (ep_name e +++ "_ni") i, full_name (ep_name e) i))) in E1. exact E1. }
+    assert (L2 : link_edges_of g' = link_edges_of a1).
+    { destruct (ep_is_mgr e); [|inversion H; reflexivity].
+      apply (prot_fold_links (fun i => (full_name (ep_name e) i, full_name (ep_name e +++ "_ni") i))) in H. exact H. }
+    rewrite L2, L1. unfold link_edges_of. rewrite E0, E. reflexivity.
+  - unfold add_node in E, E0. destruct (has_node g _); [discriminate|]. inversion E; subst a; clear E.
+    cbn in E0. destruct (has_node _ _); [discriminate|]. inversion E0; subst a0; clear E0.
+    assert (L1 : link_edges_of a1 = link_edges_of g).
+    { destruct (ep_is_sbr e); [|inversion E1; subst; reflexivity].
+      apply add_edge_spec in E1. destruct E1 as (-> & _). unfold link_edges_of. cbn. rewrite filter_app. cbn. rewrite app_nil_r. reflexivity. }
+    destruct (ep_is_mgr e); [|inversion H; subst; exact L1].
+    apply add_edge_spec in H. destruct H as (-> & _). unfold link_edges_of in *. cbn [g_edges]. rewrite filter_app. cbn. rewrite app_nil_r. exact L1.
+Qed.
+
+(* node selection depends on the node set only *)
+Lemma select_nodes_nodes g1 g2 name idx rng lvl : g_nodes g1 = g_nodes g2 ->
+  select_nodes g1 name idx rng lvl = select_nodes g2 name idx rng lvl.
+Proof.
+  intros H. unfold select_nodes.
+  assert (Hh : has_node g1 = has_node g2) by (unfold has_node, find_node; rewrite H; reflexivity).
+  destruct idx, rng, lvl; try reflexivity.
+  - rewrite Hh. reflexivity.
+  - rewrite Hh. reflexivity.
+  - unfold nodes_from_lvl. rewrite H. reflexivity.
+Qed.
+Lemma ni_of_ep_nodes g1 g2 d n : g_nodes g1 = g_nodes g2 -> ni_of_ep g1 d n = ni_of_ep g2 d n.
+Proof. intros H. unfold ni_of_ep, find_node. rewrite H. reflexivity. Qed.
+
+(* the links one connection entry denotes, evaluated on the node set of graph g *)
+Definition conn_spec (d : desc) (g : graph) (c : conn_desc) : res (list edge) :=
+  do srcs <- select_nodes g (c_src c) (c_src_idx c) (c_src_range c) (c_src_lvl c);
+  do dsts <- select_nodes g (c_dst c) (c_dst_idx c) (c_dst_range c) (c_dst_lvl c);
+  do srcs <- mapM (ni_of_ep g d) srcs;
+  do dsts <- mapM (ni_of_ep g d) dsts;
+  do pairs <- pair_up srcs dsts (c_multi c);
+  Ok (conn_links (c_src_dir c) (c_dst_dir c) pairs).
+
+Lemma mapM_ext {A B} (f f' : A -> res B) l : (forall x, f x = f' x) -> mapM f l = mapM f' l.
+Proof. intros H. induction l as [|x xs IH]; cbn; [reflexivity|]. rewrite H, IH. reflexivity. Qed.
+
+Lemma conn_spec_nodes d g1 g2 c : g_nodes g1 = g_nodes g2 -> conn_spec d g1 c = conn_spec d g2 c.
+Proof.
+  intros H. unfold conn_spec. rewrite !(select_nodes_nodes g1 g2) by exact H.
+  destruct (select_nodes g2 (c_src c) _ _ _); [|reflexivity]. cbn [bind].
+  destruct (select_nodes g2 (c_dst c) _ _ _); [|reflexivity]. cbn [bind].
+  rewrite !(mapM_ext (ni_of_ep g1 d) (ni_of_ep g2 d)) by (intros; apply ni_of_ep_nodes; exact H). reflexivity.
+Qed.
+
+Lemma link_edges_app g l : link_edges_of {| g_nodes := g_nodes g; g_edges := g_edges g ++ l |} = link_edges_of g ++ filter is_link l.
+Proof. unfold link_edges_of. cbn. apply filter_app. Qed.
+
+Lemma conn_links_are_links sd dd pairs : filter is_link (conn_links sd dd pairs) = conn_links sd dd pairs.
+Proof. unfold conn_links. induction pairs as [|p ps IH]; cbn; [reflexivity|]. rewrite IH. reflexivity. Qed.
+
+Lemma connection_links d g c g' : create_connection d g c = Ok g' ->
+  exists L, conn_spec d g c = Ok L /\ link_edges_of g' = link_edges_of g ++ L /\ g_nodes g' = g_nodes g.
+Proof.
+  intros H. destruct (connection_edges d g c g' H) as (srcs & dsts & srcs' & dsts' & pairs & S1 & S2 & M1 & M2 & P & He & Hn).
+  exists (conn_links (c_src_dir c) (c_dst_dir c) pairs). split; [|split; [|exact Hn]].
+  - unfold conn_spec. rewrite S1, S2. cbn [bind]. rewrite M1, M2. cbn [bind]. rewrite P. reflexivity.
+  - unfold link_edges_of. rewrite He, filter_app, conn_links_are_links. reflexivity.
+Qed.
+
+Lemma router_links_are_links r : filter is_link (router_links r) = router_links r.
+Proof.
+  assert (Hall : forall e, In e (router_links r) -> is_link e = true).
+  { unfold router_links. destruct (rt_array r) as [[|m [|n [|x xs]]]|], (rt_tree r) as [tree|]; try (intros e []).
+    - destruct (rt_auto r); [|intros e []]. intros e He. apply mesh_links_iff in He.
+      destruct He as (i & j & _ & _ & [(_ & [-> | ->])|(_ & [-> | ->])]); reflexivity.
+    - generalize (rt_name r) 0. generalize (rt_auto r). intros cn. induction tree as [|t rest IH]; intros p lvl e He; [destruct He|].
+      cbn [tree_links] in He. apply in_flat_map in He. destruct He as (i & _ & He). apply in_app_iff in He. destruct He as [He|He].
+      + destruct (cn && (0 <? lvl)); [|destruct He]. destruct He as [<-|[<-|[]]]; reflexivity.
+      + eapply IH; eauto. }
+  induction (router_links r) as [|e l IH]; [reflexivity|]. cbn. rewrite (Hall e (or_introl eq_refl)). f_equal.
+  apply IH. intros x Hx. apply Hall. right. exact Hx.
+Qed.
+
+(* C06: the link edges of every built graph are exactly the links of its router descriptors followed by the
+   links of its connection entries (both directions of every selected pair), in declaration order *)
+Theorem build_links d g : build d = Ok g ->
+  exists Ls, Forall2 (fun c L => conn_spec d g c = Ok L) (d_conns d) Ls /\
+             link_edges_of g = flat_map router_links (d_rts d) ++ concat Ls.
+Proof.
+  unfold build. intros H. inv_bind H.
+  (* routers *)
+  assert (R : forall l g0 g1, foldM create_router l g0 = Ok g1 -> link_edges_of g1 = link_edges_of g0 ++ flat_map router_links l).
+  { induction l as [|r l IH]; intros g0 g1 Hf; cbn [foldM flat_map] in *; [inversion Hf; subst; rewrite app_nil_r; reflexivity|].
+    inv_bind Hf. rewrite (IH _ _ Hf). apply router_edges in E1. unfold link_edges_of at 1. rewrite E1, filter_app, router_links_are_links, <- app_assoc. reflexivity. }
+  (* endpoints *)
+  assert (P : forall l g0 g1, foldM create_endpoint l g0 = Ok g1 -> link_edges_of g1 = link_edges_of g0).
+  { induction l as [|e l IH]; intros g0 g1 Hf; cbn [foldM] in *; [inversion Hf; reflexivity|].
+    inv_bind Hf. rewrite (IH _ _ Hf). apply endpoint_links in E1. exact E1. }
+  (* connections: the node set stays that of the graph after the endpoints *)
+  assert (C : forall l g0 g1, foldM (create_connection d) l g0 = Ok g1 ->
+            g_nodes g1 = g_nodes g0 /\ exists Ls, Forall2 (fun c L => conn_spec d g0 c = Ok L) l Ls /\ link_edges_of g1 = link_edges_of g0 ++ concat Ls).
+  { induction l as [|c l IH]; intros g0 g1 Hf; cbn [foldM] in *.
+    - inversion Hf; subst. split; [reflexivity|]. exists []. split; [constructor|cbn; rewrite app_nil_r; reflexivity].
+    - inv_bind Hf. destruct (connection_links _ _ _ _ E1) as (L & HL & Hle & Hn).
+      destruct (IH _ _ Hf) as (Hn' & Ls & HF & Hlinks). split; [congruence|].
+      exists (L :: Ls). split.
+      + constructor; [exact HL|]. clear -HF Hn. induction HF as [|c' L' l' Ls' Hc _ IHF]; constructor; [|exact IHF].
+        rewrite <- Hc. apply conn_spec_nodes. congruence.
+      + rewrite Hlinks, Hle. cbn [concat]. rewrite <- app_assoc. reflexivity. }
+  destruct (C _ _ _ H) as (Hn & Ls & HF & Hl).
+  exists Ls. split.
+  - clear -HF Hn. induction HF as [|c' L' l' Ls' Hc _ IHF]; constructor; [|exact IHF]. rewrite <- Hc. apply conn_spec_nodes. exact Hn.
+  - rewrite Hl, (P _ _ _ E0), (R _ _ _ E). reflexivity.
+Qed.
